@@ -1,11 +1,931 @@
-//! C03 -- not built yet (stub so the crate layout is stable).
-use crate::engine::report::{Ctx, Report};
-use serde_json::Value;
+//! C03 -- decoded events do not depend on read boundaries and follow leftmost-longest rules.
+//!
+//! Spaces (each enumerated completely, on the real decoders, in worker subprocesses):
+//!  A  all strings up to length L over a representative alphabet, for the event and the command
+//!     decoder (and the UTF-8 decoder), under ALL partitions into reads, compared with the
+//!     reference tokenisation computed from per-prefix acceptance of the production DFA;
+//!  S  explicit-state part: every reachable decoder state with a buffer of at most B bytes
+//!     (= every live prefix of the DFA over the alphabet) x every continuation of length <= 3
+//!     over that state's local representatives, fed as one read / byte by byte / with empty
+//!     reads, compared with each other and with the reference;
+//!  T  the tokeniser core instantiated (hook H1) over every small set of patterns from a pool,
+//!     all inputs over {a,b,c} up to length N under all partitions, against a reference
+//!     leftmost-longest tokeniser built on regular-expression derivatives.
+use super::decoder_common::*;
+use crate::engine::report::{Ctx, Report, Tier, Violation, Violations};
+use crate::engine::util::{hex, unhex};
+use crate::engine::workers::{self, WorkerCtx};
+use crate::engine::catch;
+use serde_json::{json, Value};
+use std::collections::{BTreeMap, HashSet};
+use std::io::Cursor;
+use std::time::{Duration, Instant};
+use surf_n_term::automata::NFA;
+use surf_n_term::decoder::verif::Tokenizer;
 
-pub fn run(_ctx: &Ctx) -> Result<Report, String> {
-    Err("C03: check not built yet".into())
+// ------------------------------------------------------------------ alphabets
+
+pub fn base_alphabet(which: Which) -> Vec<u8> {
+    match which {
+        Which::Event => {
+            let mut v: Vec<u8> = vec![0x1b];
+            v.extend(b"[]OP_<?;:=$+,~\\");
+            v.push(0x07);
+            v.extend(b"01259");
+            v.extend(b"ARMmutycrqGK");
+            v.extend([0x01, b'x', 0xC3, 0xA9, 0xE2, 0xED, 0xF4, 0x80, 0xFF]);
+            v
+        }
+        Which::Command => {
+            let mut v: Vec<u8> = vec![0x1b, b'['];
+            v.extend(b"0123458");
+            v.extend(b":;mx");
+            v.extend([0xC3, 0xA9, 0xED, 0x80, 0x07]);
+            v
+        }
+        Which::Utf8 => vec![
+            0x00, b'a', 0x7f, 0x80, 0xBF, 0xC0, 0xC3, 0xA9, 0xE0, 0xE2, 0x82, 0xED, 0xA0, 0xF0, 0xF4, 0x90, 0xF5,
+            0xFF,
+        ],
+    }
 }
 
-pub fn replay(_w: &Value) -> Result<(bool, String), String> {
-    Err("C03: check not built yet".into())
+/// The alphabet actually used: the base alphabet plus one representative of every global byte
+/// class of the production DFA that is not just "a literal key reachable only from the start
+/// or ESC state" and has no representative yet (so a grammar change cannot silently escape).
+pub fn alphabet(which: Which) -> (Vec<u8>, usize, usize) {
+    let mut a = base_alphabet(which);
+    if which == Which::Utf8 {
+        let n = a.len();
+        return (a, n, 0);
+    }
+    let t = table(which);
+    let esc_state = t.step(t.start, 0x1b);
+    let mut covered: HashSet<u16> = a.iter().map(|b| t.class_of[*b as usize]).collect();
+    let mut added = 0;
+    for b in 0..=255u8 {
+        let c = t.class_of[b as usize];
+        if covered.contains(&c) {
+            continue;
+        }
+        // simple literal: only transitions are from start / ESC state into accepting terminal
+        // states, or identical to the plain character 'x'
+        let simple = (0..t.size).all(|s| {
+            let n = t.next[s * 256 + b as usize];
+            if n == DEAD || n == t.next[s * 256 + b'x' as usize] {
+                return true;
+            }
+            (s == t.start || Some(s) == esc_state) && t.accepting[n as usize] && t.terminal[n as usize]
+        });
+        if !simple {
+            a.push(b);
+            covered.insert(c);
+            added += 1;
+        }
+    }
+    let classes = t.class_reps.len();
+    (a, classes, added)
+}
+
+// ------------------------------------------------------------------ tiny regex reference
+
+#[derive(Debug, Clone, PartialEq, Eq, Hash, PartialOrd, Ord)]
+pub enum Re {
+    Nothing,
+    Eps,
+    Byte(u8),
+    Seq(Box<Re>, Box<Re>),
+    Alt(Box<Re>, Box<Re>),
+    Star(Box<Re>),
+}
+
+impl Re {
+    pub fn seq(a: Re, b: Re) -> Re {
+        match (a, b) {
+            (Re::Nothing, _) | (_, Re::Nothing) => Re::Nothing,
+            (Re::Eps, x) | (x, Re::Eps) => x,
+            (a, b) => Re::Seq(Box::new(a), Box::new(b)),
+        }
+    }
+    pub fn alt(a: Re, b: Re) -> Re {
+        match (a, b) {
+            (Re::Nothing, x) | (x, Re::Nothing) => x,
+            (a, b) if a == b => a,
+            (a, b) => Re::Alt(Box::new(a), Box::new(b)),
+        }
+    }
+    pub fn star(a: Re) -> Re {
+        match a {
+            Re::Nothing | Re::Eps => Re::Eps,
+            a @ Re::Star(_) => a,
+            a => Re::Star(Box::new(a)),
+        }
+    }
+    pub fn plus(a: Re) -> Re {
+        Re::seq(a.clone(), Re::star(a))
+    }
+    pub fn opt(a: Re) -> Re {
+        Re::alt(a, Re::Eps)
+    }
+    pub fn lit(s: &str) -> Re {
+        s.bytes().fold(Re::Eps, |acc, b| Re::seq(acc, Re::Byte(b)))
+    }
+    pub fn nullable(&self) -> bool {
+        match self {
+            Re::Nothing | Re::Byte(_) => false,
+            Re::Eps | Re::Star(_) => true,
+            Re::Seq(a, b) => a.nullable() && b.nullable(),
+            Re::Alt(a, b) => a.nullable() || b.nullable(),
+        }
+    }
+    pub fn deriv(&self, c: u8) -> Re {
+        match self {
+            Re::Nothing | Re::Eps => Re::Nothing,
+            Re::Byte(b) => {
+                if *b == c {
+                    Re::Eps
+                } else {
+                    Re::Nothing
+                }
+            }
+            Re::Seq(a, b) => {
+                let left = Re::seq(a.deriv(c), (**b).clone());
+                if a.nullable() {
+                    Re::alt(left, b.deriv(c))
+                } else {
+                    left
+                }
+            }
+            Re::Alt(a, b) => Re::alt(a.deriv(c), b.deriv(c)),
+            Re::Star(a) => Re::seq(a.deriv(c), Re::Star(a.clone())),
+        }
+    }
+    /// the same expression through the library's public combinators
+    pub fn to_nfa(&self) -> NFA<()> {
+        match self {
+            Re::Nothing => NFA::nothing(),
+            Re::Eps => NFA::empty(),
+            Re::Byte(b) => {
+                let b = *b;
+                NFA::predicate(move |x| x == b)
+            }
+            Re::Seq(a, b) => NFA::sequence([a.to_nfa(), b.to_nfa()]),
+            Re::Alt(a, b) => NFA::choice([a.to_nfa(), b.to_nfa()]),
+            Re::Star(a) => a.to_nfa().many(),
+        }
+    }
+}
+
+/// pattern pool (name, expression); `c` matches nothing
+pub fn pattern_pool() -> Vec<(&'static str, Re)> {
+    let a = || Re::Byte(b'a');
+    let b = || Re::Byte(b'b');
+    vec![
+        ("a", a()),
+        ("b", b()),
+        ("ab", Re::lit("ab")),
+        ("ba", Re::lit("ba")),
+        ("aab", Re::lit("aab")),
+        ("abab", Re::lit("abab")),
+        ("a+", Re::plus(a())),
+        ("b+a", Re::seq(Re::plus(b()), a())),
+        ("a*b", Re::seq(Re::star(a()), b())),
+        ("(ab)+", Re::plus(Re::lit("ab"))),
+        ("a?b", Re::seq(Re::opt(a()), b())),
+        ("a(a|b)", Re::seq(a(), Re::alt(a(), b()))),
+        ("(a|b)b", Re::seq(Re::alt(a(), b()), b())),
+        ("aa*bb*a", Re::seq(Re::seq(Re::plus(a()), Re::plus(b())), a())),
+    ]
+}
+
+#[derive(Debug, Clone, PartialEq, Eq)]
+pub enum TokItem {
+    Token(usize, usize, usize), // start, end, pattern index
+    Garbage(usize, usize),
+}
+
+/// reference leftmost-longest tokenisation (given the input available) over derivatives
+pub fn reference_patterns(pats: &[Re], w: &[u8]) -> (Vec<TokItem>, usize) {
+    let sigma = [b'a', b'b', b'c'];
+    let mut items = vec![];
+    let mut i = 0;
+    let n = w.len();
+    'outer: while i < n {
+        let mut d: Vec<Re> = pats.to_vec();
+        let mut cand: Option<(usize, usize)> = None;
+        let mut k = i;
+        loop {
+            if k == n {
+                return (items, i);
+            }
+            let nd: Vec<Re> = d.iter().map(|r| r.deriv(w[k])).collect();
+            if nd.iter().all(|r| *r == Re::Nothing) {
+                match cand {
+                    Some((j, tag)) => {
+                        items.push(TokItem::Token(i, j, tag));
+                        i = j;
+                    }
+                    None => {
+                        let end = if k > i { k } else { i + 1 };
+                        items.push(TokItem::Garbage(i, end));
+                        i = end;
+                    }
+                }
+                continue 'outer;
+            }
+            d = nd;
+            k += 1;
+            if let Some(tag) = d.iter().position(|r| r.nullable()) {
+                cand = Some((k, tag));
+                let extendable = sigma
+                    .iter()
+                    .any(|c| d.iter().any(|r| r.deriv(*c) != Re::Nothing));
+                if !extendable {
+                    items.push(TokItem::Token(i, k, tag));
+                    i = k;
+                    continue 'outer;
+                }
+            }
+        }
+    }
+    (items, n)
+}
+
+fn run_tokenizer(tok: &Tokenizer, w: &[u8], parts: &[usize]) -> (Vec<Result<usize, Vec<u8>>>, Vec<u8>, Vec<String>) {
+    let mut t = tok.fresh();
+    let mut out = vec![];
+    let mut problems = vec![];
+    let mut off = 0;
+    for p in parts {
+        let chunk = &w[off..off + p];
+        off += p;
+        let mut cur = Cursor::new(chunk);
+        let mut calls = 0;
+        loop {
+            calls += 1;
+            if calls > 2 * (chunk.len() + 64) + 8 {
+                problems.push("decode does not terminate".to_string());
+                break;
+            }
+            match t.decode(&mut cur) {
+                Ok(Some(item)) => out.push(item),
+                Ok(None) => break,
+                Err(e) => {
+                    problems.push(format!("error {e:?}"));
+                    break;
+                }
+            }
+        }
+        if cur.position() as usize != chunk.len() {
+            problems.push("read not fully consumed".to_string());
+        }
+    }
+    let snap = t.verif_snapshot();
+    if !snap.rescheduled.is_empty() {
+        problems.push(format!("rescheduled bytes left: {:?}", snap.rescheduled));
+    }
+    (out, snap.buffer, problems)
+}
+
+/// check one (pattern set, input) under all partitions; returns (kind, detail)
+fn check_tokenizer_case(pats: &[Re], tok: &Tokenizer, w: &[u8], parts_all: &[Vec<usize>]) -> Vec<(String, String)> {
+    let mut problems = vec![];
+    let (items, pending) = reference_patterns(pats, w);
+    let expect: Vec<Result<usize, Vec<u8>>> = items
+        .iter()
+        .map(|it| match it {
+            TokItem::Token(_, _, tag) => Ok(*tag),
+            TokItem::Garbage(s, e) => Err(w[*s..*e].to_vec()),
+        })
+        .collect();
+    for parts in parts_all {
+        match catch(|| run_tokenizer(tok, w, parts)) {
+            Err(p) => {
+                problems.push((p.key(), format!("panic {} ({}:{}) reads {:?}", p.message, p.file, p.line, parts)));
+                break;
+            }
+            Ok((out, buffer, probs)) => {
+                for p in probs {
+                    problems.push((format!("totality:{}", squash(&p)), format!("{p} reads {:?}", parts)));
+                }
+                if out != expect {
+                    problems.push((
+                        "tokenisation".to_string(),
+                        format!("reads {:?}: tokeniser gave {:?}, leftmost-longest reference {:?}", parts, out, expect),
+                    ));
+                } else if buffer != w[pending..] {
+                    problems.push((
+                        "pending-tail".to_string(),
+                        format!("reads {:?}: tokeniser buffers {:?}, reference pending tail {:?}", parts, buffer, &w[pending..]),
+                    ));
+                }
+            }
+        }
+        if !problems.is_empty() {
+            break;
+        }
+    }
+    problems
+}
+
+// ------------------------------------------------------------------ parameters
+
+struct Params {
+    len_event: usize,
+    len_command: usize,
+    len_utf8: usize,
+    part_limit: usize, // all partitions up to this length, light partitions beyond
+    buf_bound: usize,
+    cont_len: usize,
+    set_size: usize,
+    tok_len: usize,
+}
+
+fn params(tier: Tier) -> Params {
+    match tier {
+        Tier::Quick => Params {
+            len_event: 4,
+            len_command: 5,
+            len_utf8: 4,
+            part_limit: 8,
+            buf_bound: 5,
+            cont_len: 2,
+            set_size: 2,
+            tok_len: 7,
+        },
+        Tier::Thorough => Params {
+            len_event: 5,
+            len_command: 6,
+            len_utf8: 5,
+            part_limit: 8,
+            buf_bound: 7,
+            cont_len: 3,
+            set_size: 3,
+            tok_len: 8,
+        },
+    }
+}
+
+// ------------------------------------------------------------------ worker
+
+pub fn descriptor(kind: u8, which: Which, w: &[u8], extra: &[u8]) -> Vec<u8> {
+    let mut d = vec![kind, which as u8, w.len() as u8, extra.len() as u8];
+    d.extend_from_slice(w);
+    d.extend_from_slice(extra);
+    d
+}
+
+pub fn which_from_u8(b: u8) -> Which {
+    match b {
+        0 => Which::Event,
+        1 => Which::Command,
+        _ => Which::Utf8,
+    }
+}
+
+pub struct Local {
+    pub viol: BTreeMap<String, (usize, Violation)>,
+}
+
+impl Local {
+    pub fn add(&mut self, w: &mut WorkerCtx, key: String, what: String, witness: Value) {
+        let size = witness.to_string().len();
+        match self.viol.get(&key) {
+            Some((s, _)) if *s <= size => {}
+            other => {
+                let first = other.is_none();
+                let v = Violation { key: key.clone(), what, witness };
+                if first || self.viol.len() < 300 {
+                    w.violation(&v);
+                }
+                self.viol.insert(key, (size, v));
+            }
+        }
+    }
+}
+
+pub fn string_witness(which: Which, w: &[u8], mode: &str) -> Value {
+    json!({"kind": "string", "which": which.name(), "w": hex(w), "w_esc": crate::engine::util::esc(w), "partitions": mode})
+}
+
+pub fn check_and_report(
+    wc: &mut WorkerCtx,
+    local: &mut Local,
+    which: Which,
+    s: &[u8],
+    parts: &[Vec<usize>],
+    mode: &str,
+    reference_check: bool,
+) {
+    match check_string(which, s, parts, reference_check) {
+        Ok(problems) => {
+            for p in problems {
+                local.add(
+                    wc,
+                    format!("{}:{}", which.name(), p.kind),
+                    format!("{} decoder on {:?}: {}", which.name(), crate::engine::util::esc(s), p.detail),
+                    string_witness(which, s, mode),
+                );
+            }
+        }
+        Err(p) => local.add(
+            wc,
+            format!("{}:{}", which.name(), p.key()),
+            format!(
+                "{} decoder panicked on {:?}: {} ({}:{})",
+                which.name(),
+                crate::engine::util::esc(s),
+                p.message,
+                p.file,
+                p.line
+            ),
+            string_witness(which, s, mode),
+        ),
+    }
+}
+
+/// enumerate all strings of length 1..=maxlen over alphabet whose first symbol index is `first`
+pub fn for_strings(alpha: &[u8], first: usize, maxlen: usize, f: &mut dyn FnMut(&[u8])) {
+    fn rec(alpha: &[u8], cur: &mut Vec<u8>, maxlen: usize, f: &mut dyn FnMut(&[u8])) {
+        f(cur);
+        if cur.len() == maxlen {
+            return;
+        }
+        for b in alpha {
+            cur.push(*b);
+            rec(alpha, cur, maxlen, f);
+            cur.pop();
+        }
+    }
+    let mut cur = vec![alpha[first]];
+    rec(alpha, &mut cur, maxlen, f);
+}
+
+/// live prefixes (decoder buffers) up to length `bound` over `alpha`, in BFS order
+pub fn live_prefixes(which: Which, alpha: &[u8], bound: usize) -> Vec<(Vec<u8>, usize)> {
+    let t = table(which);
+    let mut out = vec![(vec![], t.start)];
+    let mut frontier = vec![(vec![], t.start)];
+    for _ in 0..bound {
+        let mut next = vec![];
+        for (u, s) in &frontier {
+            for b in alpha {
+                if let Some(ns) = t.step(*s, *b) {
+                    if t.accepting[ns] && t.terminal[ns] {
+                        continue; // emitted immediately, buffer is empty again
+                    }
+                    let mut v = u.clone();
+                    v.push(*b);
+                    next.push((v, ns));
+                }
+            }
+        }
+        out.extend(next.iter().cloned());
+        frontier = next;
+    }
+    out
+}
+
+fn local_reps(which: Which, state: usize) -> Vec<u8> {
+    let t = table(which);
+    let mut seen: HashSet<u16> = HashSet::new();
+    let mut reps = vec![];
+    for b in 0..=255u8 {
+        let n = t.next[state * 256 + b as usize];
+        if n != DEAD && seen.insert(n) {
+            reps.push(b);
+        }
+    }
+    for b in [0x1bu8, b'x', 0x80] {
+        if !reps.contains(&b) {
+            reps.push(b);
+        }
+    }
+    reps
+}
+
+fn subsets(n: usize, max: usize) -> Vec<Vec<usize>> {
+    fn rec(n: usize, max: usize, start: usize, cur: &mut Vec<usize>, out: &mut Vec<Vec<usize>>) {
+        if !cur.is_empty() {
+            out.push(cur.clone());
+        }
+        if cur.len() == max {
+            return;
+        }
+        for i in start..n {
+            cur.push(i);
+            rec(n, max, i + 1, cur, out);
+            cur.pop();
+        }
+    }
+    let mut out = vec![];
+    rec(n, max, 0, &mut vec![], &mut out);
+    out
+}
+
+pub fn worker(ctx: &Ctx, mut wc: WorkerCtx, _extra: &[String]) {
+    let p = params(ctx.tier);
+    let mut local = Local { viol: BTreeMap::new() };
+    let mut case: u64 = 0;
+    let mut unit: u64 = 0;
+    let shard = wc.shard as u64;
+    let shards = wc.shards as u64;
+    let resume = wc.resume;
+    let mut outcomes: HashSet<u64> = HashSet::new();
+
+    // ---- space A: strings over the alphabet, all partitions
+    for (which, maxlen) in [
+        (Which::Event, p.len_event),
+        (Which::Command, p.len_command),
+        (Which::Utf8, p.len_utf8),
+    ] {
+        let (alpha, _, _) = alphabet(which);
+        let parts_by_len: Vec<Vec<Vec<usize>>> = (0..=maxlen).map(all_partitions).collect();
+        for first in 0..alpha.len() {
+            unit += 1;
+            if unit % shards != shard {
+                continue;
+            }
+            let mut strings = 0u64;
+            let mut runs = 0u64;
+            let mut reparse = 0u64;
+            for_strings(&alpha, first, maxlen, &mut |s| {
+                case += 1;
+                if case <= resume {
+                    return;
+                }
+                wc.begin_case(case, &descriptor(0, which, s, &[]));
+                let parts = &parts_by_len[s.len()];
+                strings += 1;
+                runs += parts.len() as u64;
+                if which != Which::Utf8 {
+                    let (items, pending) = reference(table(which), s);
+                    // non-trivial: a longer candidate failed and bytes after the emitted one were parsed again
+                    if reparsed_bytes(table(which), s) > 0 {
+                        reparse += 1;
+                    }
+                    outcomes.insert(crate::engine::util::hash64(&(which as u8, &items, pending)));
+                }
+                check_and_report(&mut wc, &mut local, which, s, parts, "all", true);
+            });
+            wc.count(&format!("A_{}_strings", which.name()), strings);
+            wc.count(&format!("A_{}_runs", which.name()), runs);
+            wc.count(&format!("A_{}_reparse", which.name()), reparse);
+        }
+    }
+
+    // ---- space A256: every byte string of length <= 2 (thorough: 3 for the event decoder)
+    for which in [Which::Event, Which::Command, Which::Utf8] {
+        let maxlen = if ctx.tier == Tier::Thorough && which != Which::Command { 3 } else { 2 };
+        let all: Vec<u8> = (0..=255u8).collect();
+        let parts_by_len: Vec<Vec<Vec<usize>>> = (0..=maxlen).map(all_partitions).collect();
+        for first in 0..256 {
+            unit += 1;
+            if unit % shards != shard {
+                continue;
+            }
+            let mut strings = 0u64;
+            let mut runs = 0u64;
+            for_strings(&all, first, maxlen, &mut |s| {
+                case += 1;
+                if case <= resume {
+                    return;
+                }
+                wc.begin_case(case, &descriptor(0, which, s, &[]));
+                strings += 1;
+                runs += parts_by_len[s.len()].len() as u64;
+                check_and_report(&mut wc, &mut local, which, s, &parts_by_len[s.len()], "all", true);
+            });
+            wc.count(&format!("A256_{}_strings", which.name()), strings);
+            wc.count(&format!("A256_{}_runs", which.name()), runs);
+        }
+    }
+
+    // ---- space S: explicit-state part
+    for which in [Which::Event, Which::Command] {
+        let (alpha, _, _) = alphabet(which);
+        let bound = if which == Which::Command { p.buf_bound + 1 } else { p.buf_bound };
+        let prefixes = live_prefixes(which, &alpha, bound);
+        for (u, state) in prefixes.iter() {
+            unit += 1;
+            if unit % shards != shard {
+                continue;
+            }
+            let reps = local_reps(which, *state);
+            let mut transitions = 0u64;
+            let mut runs = 0u64;
+            // continuations of length 1..=cont_len over reps
+            let mut conts: Vec<Vec<u8>> = vec![vec![]];
+            let mut all_conts: Vec<Vec<u8>> = vec![];
+            for _ in 0..p.cont_len {
+                let mut next = vec![];
+                for c in &conts {
+                    for b in &reps {
+                        let mut v = c.clone();
+                        v.push(*b);
+                        next.push(v);
+                    }
+                }
+                all_conts.extend(next.iter().cloned());
+                conts = next;
+            }
+            for v in &all_conts {
+                case += 1;
+                if case <= resume {
+                    continue;
+                }
+                let mut w = u.clone();
+                w.extend_from_slice(v);
+                wc.begin_case(case, &descriptor(1, which, &w, &[u.len() as u8]));
+                let parts = state_partitions(u.len(), v.len());
+                transitions += 1;
+                runs += parts.len() as u64;
+                check_and_report(&mut wc, &mut local, which, &w, &parts, &format!("state:{}", u.len()), true);
+            }
+            wc.count(&format!("S_{}_states", which.name()), 1);
+            wc.count(&format!("S_{}_transitions", which.name()), transitions);
+            wc.count(&format!("S_{}_runs", which.name()), runs);
+        }
+    }
+
+    // ---- space T: tokeniser core over pattern sets
+    {
+        let pool = pattern_pool();
+        let sets = subsets(pool.len(), p.set_size);
+        let sigma = [b'a', b'b', b'c'];
+        let parts_by_len: Vec<Vec<Vec<usize>>> = (0..=p.tok_len)
+            .map(|n| {
+                let mut v = all_partitions(n);
+                // plus the all-singletons partition with empty reads interleaved
+                let mut e = vec![0usize];
+                for _ in 0..n {
+                    e.push(1);
+                    e.push(0);
+                }
+                v.push(e);
+                v
+            })
+            .collect();
+        for set in sets.iter() {
+            unit += 1;
+            if unit % shards != shard {
+                continue;
+            }
+            let pats: Vec<Re> = set.iter().map(|i| pool[*i].1.clone()).collect();
+            let tok = match catch(|| Tokenizer::new(pats.iter().map(|r| r.to_nfa()))) {
+                Ok(t) => t,
+                Err(pn) => {
+                    local.add(
+                        &mut wc,
+                        format!("tokenizer:{}", pn.key()),
+                        format!("building the tokeniser for {:?} panicked: {}", set, pn.message),
+                        json!({"kind": "tokenizer", "patterns": set, "w": ""}),
+                    );
+                    continue;
+                }
+            };
+            let mut cases = 0u64;
+            let mut runs = 0u64;
+            let mut multi = 0u64;
+            for first in 0..sigma.len() {
+                for_strings(&sigma, first, p.tok_len, &mut |s| {
+                    case += 1;
+                    if case <= resume {
+                        return;
+                    }
+                    let setb: Vec<u8> = set.iter().map(|i| *i as u8).collect();
+                    wc.begin_case(case, &descriptor(2, Which::Event, s, &setb));
+                    cases += 1;
+                    runs += parts_by_len[s.len()].len() as u64;
+                    let (items, _) = reference_patterns(&pats, s);
+                    if items.len() >= 2 && items.iter().any(|it| matches!(it, TokItem::Token(..))) {
+                        multi += 1;
+                    }
+                    outcomes.insert(crate::engine::util::hash64(&(9u8, set, format!("{:?}", items))));
+                    for (kind, detail) in check_tokenizer_case(&pats, &tok, s, &parts_by_len[s.len()]) {
+                        let names: Vec<&str> = set.iter().map(|i| pool[*i].0).collect();
+                        local.add(
+                            &mut wc,
+                            format!("tokenizer:{}", kind),
+                            format!("patterns {:?} input {:?}: {}", names, String::from_utf8_lossy(s), detail),
+                            json!({"kind": "tokenizer", "patterns": set, "pattern_names": names, "w": String::from_utf8_lossy(s)}),
+                        );
+                    }
+                });
+            }
+            wc.count("T_sets", 1);
+            wc.count("T_cases", cases);
+            wc.count("T_runs", runs);
+            wc.count("T_multi_item", multi);
+        }
+    }
+    wc.count("distinct_outcomes_per_shard_sum", outcomes.len() as u64);
+    let finals: Vec<Violation> = local.viol.values().map(|(_, v)| v.clone()).collect();
+    for v in finals {
+        wc.violation(&v);
+    }
+    wc.finish();
+}
+
+/// partitions used in the explicit-state part for w = u v
+fn state_partitions(ulen: usize, vlen: usize) -> Vec<Vec<usize>> {
+    let mut out = vec![];
+    let n = ulen + vlen;
+    out.push(vec![n]);
+    if ulen > 0 {
+        out.push(vec![ulen, vlen]);
+    }
+    let mut p = if ulen > 0 { vec![ulen] } else { vec![] };
+    p.extend(std::iter::repeat(1).take(vlen));
+    out.push(p);
+    let mut p = if ulen > 0 { vec![ulen, 0] } else { vec![0] };
+    for _ in 0..vlen {
+        p.push(1);
+        p.push(0);
+    }
+    out.push(p);
+    out.push(vec![1; n]);
+    out.sort();
+    out.dedup();
+    out
+}
+
+// ------------------------------------------------------------------ parent
+
+fn describe_crash(desc: &[u8], how: &str) -> (String, String, Value) {
+    let kind = desc[0];
+    let which = which_from_u8(desc[1]);
+    let wl = desc[2] as usize;
+    let el = desc[3] as usize;
+    let w = &desc[4..4 + wl];
+    let extra = &desc[4 + wl..4 + wl + el];
+    match kind {
+        2 => {
+            let set: Vec<usize> = extra.iter().map(|b| *b as usize).collect();
+            (
+                "tokenizer:process-died".to_string(),
+                format!("tokeniser over pattern set {:?} killed the process on input {:?} ({how})", set, String::from_utf8_lossy(w)),
+                json!({"kind": "tokenizer", "patterns": set, "w": String::from_utf8_lossy(w)}),
+            )
+        }
+        _ => (
+            format!("{}:process-died", which.name()),
+            format!(
+                "{} decoder killed or stalled the process on input {:?} ({how})",
+                which.name(),
+                crate::engine::util::esc(w)
+            ),
+            string_witness(which, w, "all"),
+        ),
+    }
+}
+
+pub fn run(ctx: &Ctx) -> Result<Report, String> {
+    let spec = workers::Spec {
+        prop: "C03",
+        tier: ctx.tier,
+        seed: ctx.seed,
+        shards: ctx.threads * 4,
+        parallel: ctx.threads,
+        extra_args: vec![],
+        stall_timeout: Duration::from_secs(20),
+        max_restarts_per_shard: 20,
+        deadline: Instant::now() + Duration::from_secs_f64(ctx.wall_cap_s),
+    };
+    let merged = workers::run_shards(&spec, &describe_crash)?;
+    let c = |k: &str| merged.counters.get(k).copied().unwrap_or(0);
+    let states = c("S_event_states") + c("S_command_states");
+    let transitions = c("S_event_transitions") + c("S_command_transitions");
+    let runs: u64 = merged
+        .counters
+        .iter()
+        .filter(|(k, _)| k.ends_with("_runs"))
+        .map(|(_, v)| *v)
+        .sum();
+    let strings: u64 = merged
+        .counters
+        .iter()
+        .filter(|(k, _)| k.ends_with("_strings") || *k == "T_cases")
+        .map(|(_, v)| *v)
+        .sum();
+    let p = params(ctx.tier);
+    let (ae, classes_e, added_e) = alphabet(Which::Event);
+    let (ac, classes_c, added_c) = alphabet(Which::Command);
+    let mut r = Report::new("model_checking");
+    r.set("states", states)
+        .set("transitions", transitions)
+        .set("traces_validated_against_impl", runs)
+        .set("evaluations", strings + transitions)
+        .set(
+            "distinct_nontrivial",
+            c("A_event_reparse") + c("A_command_reparse") + c("T_multi_item"),
+        )
+        .set(
+            "rule",
+            "states = reachable decoder states (distinct buffers of at most B bytes over the alphabet, both production decoders); \
+             transitions = (state, continuation) pairs, each executed on the real decoder under up to 5 read partitions; \
+             evaluations = strings checked under all partitions (spaces A, A256, T) + transitions; \
+             non-trivial (production decoders) = inputs on which a longer candidate failed so that at least one byte after the emitted item was interpreted a second time; (tokeniser) = inputs with a token and at least two items",
+        )
+        .set("counters", json!(merged.counters))
+        .set(
+            "bounds",
+            json!({
+                "A_len_event": p.len_event, "A_len_command": p.len_command, "A_len_utf8": p.len_utf8,
+                "S_buffer_bound_event": p.buf_bound, "S_buffer_bound_command": p.buf_bound + 1, "S_continuation_len": p.cont_len,
+                "T_pattern_set_size": p.set_size, "T_input_len": p.tok_len, "T_pool": pattern_pool().iter().map(|x| x.0).collect::<Vec<_>>(),
+            }),
+        )
+        .set(
+            "alphabet",
+            json!({
+                "event": crate::engine::util::esc(&ae), "event_global_classes": classes_e, "event_classes_added_automatically": added_e,
+                "command": crate::engine::util::esc(&ac), "command_global_classes": classes_c, "command_classes_added_automatically": added_c,
+            }),
+        )
+        .set("exhaustive", !merged.capped)
+        .set("capped", merged.capped)
+        .set("worker_crashes", merged.crashes)
+        .set(
+            "samples",
+            json!([
+                {"space": "A", "which": "event", "w": "\\e[1;5A", "partitions": "all 2^(n-1)"},
+                {"space": "S", "which": "event", "state_buffer": "\\e]1", "continuation": ";x", "partitions": "[u,v] [u,v1,v2] [u,-,v1,-,v2,-] [w] singles"},
+                {"space": "T", "patterns": ["a+", "aa*bb*a"], "w": "aabbc", "partitions": "all + singletons with empty reads"},
+            ]),
+        );
+    r.assume("garbage grouping: after a dead transition without a candidate the bytes consumed so far form one raw item (the statement is silent; the reference follows the library)");
+    r.assume("which event a recognised token decodes to is not judged here (C04)");
+    r.assume("alphabet: representatives of the DFA's byte classes; classes that are plain single-key literals are represented by one literal");
+    r.violations = merged.violations;
+    Ok(r)
+}
+
+pub fn replay(w: &Value) -> Result<(bool, String), String> {
+    match w["kind"].as_str() {
+        Some("string") => {
+            let which = Which::from_name(w["which"].as_str().unwrap_or("")).ok_or("which")?;
+            let s = unhex(w["w"].as_str().ok_or("w")?);
+            let mode = w["partitions"].as_str().unwrap_or("all");
+            let parts = if let Some(rest) = mode.strip_prefix("state:") {
+                let ul: usize = rest.parse().map_err(|_| "state len")?;
+                state_partitions(ul, s.len() - ul)
+            } else if s.len() <= 12 {
+                all_partitions(s.len())
+            } else {
+                light_partitions(s.len())
+            };
+            let mut detail = format!("input {:?} ({} partitions)\n", crate::engine::util::esc(&s), parts.len());
+            if which != Which::Utf8 {
+                let (items, pending) = reference(table(which), &s);
+                detail += &format!("reference tokenisation: {:?} pending from {}\n", items, pending);
+            }
+            match check_string(which, &s, &parts, true) {
+                Ok(problems) => {
+                    for p in &problems {
+                        detail += &format!("  {}: {}\n", p.kind, p.detail);
+                    }
+                    if problems.is_empty() {
+                        let run = run_parts(which, &s, &parts[0]);
+                        detail += &format!("observed: {:?}\n", run.items);
+                    }
+                    Ok((!problems.is_empty(), detail))
+                }
+                Err(p) => Ok((true, format!("{detail}panic: {} ({}:{})", p.message, p.file, p.line))),
+            }
+        }
+        Some("tokenizer") => {
+            let pool = pattern_pool();
+            let set: Vec<usize> = w["patterns"]
+                .as_array()
+                .ok_or("patterns")?
+                .iter()
+                .filter_map(|v| v.as_u64().map(|x| x as usize))
+                .collect();
+            let pats: Vec<Re> = set.iter().map(|i| pool[*i].1.clone()).collect();
+            let s = w["w"].as_str().unwrap_or("").as_bytes().to_vec();
+            let tok = Tokenizer::new(pats.iter().map(|r| r.to_nfa()));
+            let mut parts = all_partitions(s.len());
+            let mut e = vec![0usize];
+            for _ in 0..s.len() {
+                e.push(1);
+                e.push(0);
+            }
+            parts.push(e);
+            let problems = check_tokenizer_case(&pats, &tok, &s, &parts);
+            let (items, pending) = reference_patterns(&pats, &s);
+            let mut detail = format!(
+                "patterns {:?} input {:?}\nreference: {:?} pending from {}\n",
+                set.iter().map(|i| pool[*i].0).collect::<Vec<_>>(),
+                String::from_utf8_lossy(&s),
+                items,
+                pending
+            );
+            for (k, d) in &problems {
+                detail += &format!("  {k}: {d}\n");
+            }
+            Ok((!problems.is_empty(), detail))
+        }
+        _ => Err("unknown witness kind".into()),
+    }
 }
